@@ -324,8 +324,52 @@ def alloca_programs(rng, n=6):
     return out
 
 
+def exit_in_function_programs(rng):
+    """A called function one of whose paths ends the program (a7 = 10 / 93, set with li, addi or
+    through a copy), with code behind the exit that only falling out of it would reach - up to the
+    function's return, a label reached from elsewhere, or nothing; and the `die` helper whose only
+    return stands behind its exit."""
+    out = []
+    for num in (10, 93):
+        for seta7 in (f"li a7, {num}", f"addi a7, zero, {num}", f"li t2, {num}\n    mv a7, t2"):
+            behind = rng.choice([["    li a0, 0", "    li s1, 7"], ["    addi sp, sp, -4"], ["    mv t0, a0", "    jal other"],
+                                 []])
+            for guard in ("bnez a0, done", "beqz a0, done", "blt a0, a1, done"):
+                L = ["main:", "    li a0, 1", "    li a1, 2", "    jal check", "    jal other", "    addi a7, zero, 10", "    ecall",
+                     "check:", f"    {guard}", f"    {seta7}", "    ecall"] + behind + ["done:", "    ret",
+                     "other:", "    li a0, 3", "    ret"]
+                out.append("\n".join(L) + "\n")
+            out.append("\n".join(["main:", "    li a0, 1", "    jal die", "    addi a7, zero, 10", "    ecall", "die:",
+                                  f"    {seta7}", "    ecall"] + behind[:1] + ["    ret"]) + "\n")
+    rng.shuffle(out)
+    return out[:14]
+
+
+def dead_chain_programs(rng):
+    """Left-over code behind an exit laid out upside down: the only way into the first block is
+    falling out of the exit, each block jumps back to a block written earlier that nothing else
+    reaches, and the last one joins the live code. Nothing behind the exit can run, and whatever a
+    pass does about it has to be done in one go (not one block per run)."""
+    out = []
+    for depth in (1, 2, 3, 4):
+        for join in ("report", "start2"):
+            blocks = []
+            for d in range(depth):
+                tgt = f"dead{d - 1}" if d > 0 else join
+                blocks.append([f"dead{d}:", f"    li {rng.choice(['t0', 't1', 's1', 'a0'])}, {rng.randrange(50, 99)}",
+                               f"    {rng.choice(['j', 'beqz zero,'])} {tgt}"])
+            L = ["main:", "    j start"]
+            for b in blocks:
+                L += b
+            L += ["start:", "    li t0, 1", "    li t1, 2", "start2:", "    beqz a0, report", f"    li a7, {rng.choice([10, 93])}", "    ecall",
+                  "x:", f"    j dead{depth - 1}", "report:", "    add a0, t0, t1", "    li a7, 1", "    ecall",
+                  "    li a7, 10", "    ecall"]
+            out.append("\n".join(L) + "\n")
+    return out
+
+
 def gen_programs(rng, n, sloppy_choices=(0, 0.1, 0.3), multi=0.15):
-    out = list(CORPUS) + branch_matrix() + ecall_matrix() + arith_matrix(rng) + alloca_programs(rng) + handler_layouts(rng) + early_out_programs(rng) + entry_by_jump_programs(rng) + [long_chain_program(rng), slow_convergence_program(rng), slow_convergence_program(rng)] + label_then_directive_programs(rng)
+    out = list(CORPUS) + branch_matrix() + ecall_matrix() + arith_matrix(rng) + alloca_programs(rng) + handler_layouts(rng) + early_out_programs(rng) + entry_by_jump_programs(rng) + [long_chain_program(rng), slow_convergence_program(rng), slow_convergence_program(rng)] + label_then_directive_programs(rng) + exit_in_function_programs(rng) + dead_chain_programs(rng)
     for _ in range(max(4, n // 10)):
         out.append(handler_program(rng))
         out.append(backward_layout(rng))
